@@ -126,7 +126,10 @@ class C11(SessimProp):
 
     def gen_case(self, rng, tier, index):
         inputs = gen_inputs(rng.fork("in"))
-        return {"inputs": inputs, "fault_seed": rng.u64()}
+        # which requests name a file: none (the session's default namespace), all of them the same one, or
+        # only the first (a `run` with a path switches the toplevel to that file's namespace for what follows)
+        path_mode = rng.fork("path").weighted([(5, "none"), (3, "all"), (2, "first")])
+        return {"inputs": inputs, "fault_seed": rng.u64(), "path_mode": path_mode}
 
     def plan_faults(self, case):
         """Deterministic transparent-fault plan derived from the case."""
@@ -148,6 +151,13 @@ class C11(SessimProp):
             plan.append(p)
         return plan
 
+    @staticmethod
+    def path_for(case, i):
+        mode = case.get("path_mode", "none")
+        if mode == "all" or (mode == "first" and i == 0):
+            return "proj/main_c11.gdn"
+        return None
+
     def scenario_incremental(self, case, faulty):
         srcs = [" ".join(items) if not any(x.startswith(("fun ", "struct ", "enum ", "method ", "test ", "//")) for x in items)
                 else "\n".join(items) for items in case["inputs"]]
@@ -155,7 +165,7 @@ class C11(SessimProp):
         marks = []  # index of the step holding each input's (last) response
         if not faulty:
             for s in srcs:
-                steps.append({"op": "send", "raw": run_req(s)})
+                steps.append({"op": "send", "raw": run_req(s, path=self.path_for(case, len(marks)))})
                 marks.append(len(steps) - 1)
             return steps, marks
         plan = self.plan_faults(case)
@@ -163,12 +173,13 @@ class C11(SessimProp):
         while i < len(srcs):
             p = plan[i]
             if p["burst_with_next"] and i + 1 < len(srcs) and p["interrupt_at"] is None and plan[i + 1]["interrupt_at"] is None:
-                steps.append({"op": "burst", "raws": [run_req(srcs[i]), run_req(srcs[i + 1])]})
+                steps.append({"op": "burst", "raws": [run_req(srcs[i], path=self.path_for(case, i)),
+                                                      run_req(srcs[i + 1], path=self.path_for(case, i + 1))]})
                 marks.append(("burst", len(steps) - 1, 0))
                 marks.append(("burst", len(steps) - 1, 1))
                 i += 2
                 continue
-            st = {"op": "send", "raw": run_req(srcs[i])}
+            st = {"op": "send", "raw": run_req(srcs[i], path=self.path_for(case, i))}
             if p["interrupt_at"]:
                 st["faults"] = [{"at": p["interrupt_at"], "kind": "interrupt"}]
             steps.append(st)
@@ -183,7 +194,7 @@ class C11(SessimProp):
         flat = []
         for items in case["inputs"]:
             flat.extend(items)
-        return [{"op": "send", "raw": run_req("\n".join(flat))}]
+        return [{"op": "send", "raw": run_req("\n".join(flat), path=self.path_for(case, 0))}]
 
     def collect(self, res, marks):
         """Per input: (final line, printed text, interrupted?)"""
